@@ -81,7 +81,18 @@ impl<T: Dump> Dump for darling::Result<T> {
 macro_rules! dump_tokens {
     ($($t:ty),* $(,)?) => { $(impl Dump for $t { fn dump(&self) -> Value { json!({"tokens": canon_of(self)}) } })* };
 }
-dump_tokens!(syn::Ident, syn::Visibility, syn::Type, syn::Expr, syn::Attribute, syn::Path, syn::TypeParamBound, syn::Field, syn::Variant, syn::WhereClause, syn::GenericParam, syn::Meta, syn::TypeParam, syn::LitStr);
+dump_tokens!(syn::Ident, syn::Visibility, syn::Expr, syn::Attribute, syn::Path, syn::TypeParamBound, syn::Field, syn::Variant, syn::WhereClause, syn::GenericParam, syn::Meta, syn::TypeParam, syn::LitStr);
+
+/// A type prints like the type inside its invisible group (what a `$t:ty` fragment of `macro_rules!`
+/// leaves around it), but it is not the same value: the group is shown.
+impl Dump for syn::Type {
+    fn dump(&self) -> Value {
+        match self {
+            syn::Type::Group(g) => json!({ "group": g.elem.dump() }),
+            _ => json!({"tokens": canon_of(self)}),
+        }
+    }
+}
 
 impl Dump for darling::util::PathList {
     fn dump(&self) -> Value {
@@ -271,6 +282,14 @@ pub fn parse_field(src: &str) -> Result<Built<syn::Field>, String> {
         },
         _ => Err("not a struct".into()),
     }
+}
+
+/// the same field with its whole type inside an invisible group, as `$t:ty` hands it over
+pub fn parse_field_grouped(src: &str) -> Result<Built<syn::Field>, String> {
+    let mut b = parse_field(src)?;
+    let ty = b.value.ty.clone();
+    b.value.ty = syn::Type::Group(syn::TypeGroup { group_token: syn::token::Group { span: syn::spanned::Spanned::span(&ty) }, elem: Box::new(ty) });
+    Ok(b)
 }
 
 pub const TUPLE_FIELD_PREFIX: &str = "struct __S(";
